@@ -1,8 +1,7 @@
 SPECIFICATION Spec
 CONSTANTS
-  TABLE = "quote"
+  TABLES = {"quote", "reply", "router"}
   GEN = FALSE
-  BROKENQ = FALSE
   VERIFY_CKSUM = TRUE
   UNK_ERR_IS_ERR = TRUE
   ROUTER_VERIFY_CKSUM = TRUE
